@@ -127,6 +127,12 @@ fn render_point(p: &Value) -> (String, String, Vec<String>) {
                 "single" => (format!("Mvr ::= INTEGER ({vname})"), "Mvr ::= INTEGER (9)".to_string()),
                 "size" => (format!("Mvr ::= OCTET STRING (SIZE (1..{vname}))"), "Mvr ::= OCTET STRING (SIZE (1..9))".to_string()),
                 "component" => (format!("Mvr ::= SEQUENCE {{ f INTEGER (0..{vname}) }}"), "Mvr ::= SEQUENCE { f INTEGER (0..9) }".to_string()),
+                // a DEFAULT literal of a referenced type whose constraint holds the value reference; here `early` places the
+                // referenced type (not the value) before / after its user
+                "reftype_default" => {
+                    let w = if early { "Aawid" } else { "Zzwid" };
+                    (format!("{w} ::= INTEGER (0..{vname})\nMvr ::= SEQUENCE {{ f {w} DEFAULT 4 }}"), format!("{w} ::= INTEGER (0..9)\nMvr ::= SEQUENCE {{ f {w} DEFAULT 4 }}"))
+                }
                 _ => (format!("Mvr ::= SEQUENCE {{ f INTEGER DEFAULT {vname} }}"), "Mvr ::= SEQUENCE { f INTEGER DEFAULT 9 }".to_string()),
             };
             (format!("{val}\n{s}"), format!("{val}\n{e}"), vec!["Mvr".into()])
